@@ -826,6 +826,22 @@ fn task_body(sim: &Arc<Sim>, oracle: &Arc<Mutex<Oracle>>, shared: &Arc<Shared>, 
     }
 }
 
+/// Stores a QR code in a slot. A slot that already holds one is overwritten *in place*: like a
+/// loop variable or a reused buffer in caller code, the new code lives at the old one's address
+/// (anything that identifies a QR code by where it is stored gets to meet that).
+fn put_qr(local: &mut Local, slot: usize, new: LocalQr) {
+    match local.qrs[slot].as_mut() {
+        Some(old) => {
+            let LocalQr { qr, tweaks, digest, cfg } = new;
+            *old.qr = *qr;
+            old.tweaks = tweaks;
+            old.digest = digest;
+            old.cfg = cfg;
+        }
+        None => local.qrs[slot] = Some(new),
+    }
+}
+
 struct QrView<'a> {
     qr: &'a QRCode,
     tweaks: &'a [(u32, u8)],
@@ -1114,7 +1130,7 @@ fn exec_op(
                         format!("clone of QR code differs from the original: {} vs {}", d, c.digest),
                     );
                 }
-                local.qrs[t] = Some(c);
+                put_qr(local, t, c);
             }
             false
         }
@@ -1130,7 +1146,8 @@ fn exec_op(
                 tweaks.push((idx as u32, *xor & 0x0f));
                 let digest = hex128(qr_digest(&qr));
                 oracle.lock().unwrap().stats.probe("qr_tweaked_by_hand");
-                local.qrs[t] = Some(LocalQr { qr, tweaks, digest, cfg: q.cfg.clone() });
+                let c = LocalQr { qr, tweaks, digest, cfg: q.cfg.clone() };
+                put_qr(local, t, c);
             }
             false
         }
@@ -1327,7 +1344,7 @@ fn finish_build(
         }
     }
     if let (Some(q), Outcome::Ok(d)) = (qr, &outcome) {
-        local.qrs[(out as usize) % N_QR_SLOTS] = Some(LocalQr { qr: Box::new(q), tweaks: vec![], digest: d.clone(), cfg: cfg.clone() });
+        put_qr(local, (out as usize) % N_QR_SLOTS, LocalQr { qr: Box::new(q), tweaks: vec![], digest: d.clone(), cfg: cfg.clone() });
     }
     died
 }
